@@ -29,7 +29,9 @@ ENTRIES = {
             "All ordered sequences of <=4 (thorough 5) distinct sub-organisation assertions over 4 companies (every chain, "
             "diamond and cycle in every insertion order) and <=3 (thorough 4) assertions over the mixed universe "
             "(single-valued assignment, container assignment, append/add on works_for/member_of/members/head_of incl. a "
-            "role) are executed on the real property descriptors from a fresh SymbolGraph; after every assertion the "
+            "role), over units (transitive part_of with a plain inverse and a sub-property), workers (sub-property on a "
+            "base class) and a transitive descriptor class attached to two classes (regions / cities), "
+            "are executed on the real property descriptors from a fresh SymbolGraph; after every assertion the "
             "graph relations and every managed field must equal the least fix point of the declared semantics.",
             "Population 4 companies / 2 persons / 1 CEO; list fields compared as sets; histories with a single-valued "
             "conflict are outside the statement and excluded by the generator (counted in evidence features).",
@@ -74,7 +76,7 @@ ENTRIES = {
             "DESIGN.md section 3 C14"),
     "C16": ("model_checking",
             "exhaustive sequences of write operations on real managed fields vs plain list/set semantics + reference closure after every step",
-            "All sequences of <=2 operations from a 36/19-operation alphabet (and <=3 from a 9/7-operation core; thorough: 3 "
+            "All sequences of <=2 operations from a 48/26-operation alphabet (item assignment with slices, one-shot iterators and self-referring values included) (and <=3 from a 9/7-operation core; thorough: 3 "
             "from the full alphabet) on a list-valued and a set-valued managed field, from initial contents of size 0-2 "
             "built by append, by assignment, by the constructor from a plain collection and by the constructor from another "
             "instance's managed field, run on the real descriptors; after every operation the field must equal "
